@@ -36,6 +36,7 @@ func (node *tagFilterNode) Execute(ctx *ExecutionContext, writer TemplateWriter)
 			param = AsValue(nil)
 		}
 		value, err = ApplyFilter(call.name, value, param)
+		verifEv("Filter", verifB(err != nil), 0, 0, 0, call.name, "tag", ctx)
 		if err != nil {
 			return ctx.Error(err.Error(), node.position)
 		}
